@@ -31,6 +31,8 @@ RULES = {
     'OPERATOR-TABLE': 'every operator method of OperatorMixin maps to the operator function of its name with its operands in '
                       'the order the Python data model prescribes (reflected methods: swapped); map_partitions rebuilds the '
                       'positional argument order (partial_by_order inserts the non-stream arguments at their recorded positions)',
+    'FULL-POSITIONAL': 'Full (the window itself as state) appends the batch with concat([state, batch]) and decays by position: '
+                       'state.iloc[len(decayed):] - never by index label, which repeats across batches',
     'DECAY-CONSERVES': 'rows leave the window history only into the decayed list: a frame popped from the left is appended to '
                        'it (or is empty), and when the oldest frame is split the decayed head X[:k] and the kept tail X[k:] are '
                        'complementary slices of the same frame at the same position; in diff_iloc the excess is rows - window, '
@@ -850,6 +852,21 @@ def check_accrue_decay(ctx, R):
                     fail('stores-new-history', "the returned accumulator's %r is not the initial state" % key)
         if n == 0:
             raise AnalysisError('%s: no returning path (unrecognised spelling)' % con)
+        if twin:
+            # whether a grouper history is kept is decided on the first batch by the *kind* of grouper, never by its content:
+            # an empty first batch must not switch the history off for the rest of the run
+            for r in paths:
+                if r.ret is None or not isinstance(r.ret, ast.Tuple) or not isinstance(r.ret.elts[0], ast.Dict):
+                    continue
+                first_ = any(c == 'acc is None' and o for c, o in r.conds) or any(c == 'acc is not None' and not o for c, o in r.conds)
+                keys = {k_.value for k_ in r.ret.elts[0].keys if isinstance(k_, ast.Constant)}
+                if first_ and 'groupers' not in keys:
+                    for c_, o in r.conds:
+                        t = _expand(r, c_, 2).replace(' ', '')
+                        if 'len(' in t and 'ELEM(' not in t:
+                            fail('stores-new-history', 'on the first batch the grouper history is switched off after a test of a '
+                                 'length (%s): an empty first batch disables it for the whole run, decayed rows are then '
+                                 'grouped with the wrong grouper' % c_[:60])
         for tok in ('once-per-chunk', 'diff-once', 'state-threaded', 'stores-new-history'):
             R.ob('ACCRUE-DECAY-SIG', con, tok, tok not in bad, bad.get(tok, ''), ctx.where(fn, fn.node.lineno), None, n)
 
@@ -1165,6 +1182,11 @@ def check_excess_accounting(ctx, R):
     fn = M.function(AGG, 'diff_iloc')
     con = ctx.construct(fn)
     loops = [l for l in own_nodes(fn.node) if isinstance(l, ast.While)]
+    if not loops and not any(isinstance(l, (ast.For, ast.AsyncFor)) for l in own_nodes(fn.node)):
+        R.ob('DECAY-CONSERVES', con, 'excess-accounting', False,
+             'diff_iloc decays without a loop: when more than one whole frame has to leave (a batch larger than the frames '
+             'before it) the surplus rows stay inside the window for that emission', ctx.where(fn, fn.node.lineno))
+        return
     if len(loops) != 1 or not (isinstance(loops[0].test, ast.Compare) and len(loops[0].test.ops) == 1
                                and isinstance(loops[0].test.ops[0], ast.Gt) and isinstance(loops[0].test.left, ast.Name)
                                and src(loops[0].test.comparators[0]) == '0'):
@@ -1296,3 +1318,36 @@ def check_operator_table(ctx, R):
         if len(final) != 1 or nf(r.ret) != 'C%d' % [k for k, (c, s_, l) in enumerate(r.calls) if c is final[0]][0]:
             ok, detail = False, 'the function is not applied to the rebuilt argument list'
     R.ob('OPERATOR-TABLE', ctx.construct(pbo), 'argument-order', ok, detail, ctx.where(pbo, pbo.node.lineno), None, len(paths))
+
+
+def check_full_positional(ctx, R):
+    """Full is exempt from MIRROR (concat vs drop is no algebraic inverse); its own two idioms are decided here"""
+    from ..symexpr import nf
+    M = ctx.model
+    cls = M.cls(AGG, 'Full')
+    for step, accept in (('on_new', None), ('on_old', None)):
+        fn = cls.find(step)
+        if fn is None:
+            raise AnalysisError('anchor vanished: Full.%s' % step)
+        params = fn.params()
+        A, B = params[1], params[2]
+        bad, n = None, 0
+        for r in _agg_paths(M, cls, fn):
+            ret = r.ret
+            if not (isinstance(ret, ast.Tuple) and len(ret.elts) == 2):
+                raise AnalysisError('Full.%s does not return (state, result)' % step)
+            n += 1
+            st_, res = nf(ret.elts[0]), nf(ret.elts[1])
+            if st_ != res:
+                bad = bad or 'state and result differ (%s vs %s)' % (st_[:40], res[:40])
+            if step == 'on_new':
+                if not (st_.endswith('concat([%s,%s])' % (A, B)) or st_ == A and any('len(' in c for c, o in r.conds)):
+                    bad = bad or 'the window becomes %s, not concat([window, batch])' % st_[:60]
+            else:
+                if st_ not in ('%s.iloc[len(%s):]' % (A, B), '%s[len(%s):]' % (A, B)):
+                    if any(w in st_ for w in ('.index', 'isin(', '.drop(', '.loc[')):
+                        bad = bad or 'decayed rows are identified by index label (%s): labels repeat across batches, so rows that ' \
+                                     'are still inside the window are dropped with them' % st_[:60]
+                    else:
+                        raise AnalysisError('Full.on_old: unrecognised spelling of the positional drop: %s' % st_[:80])
+        R.ob('FULL-POSITIONAL', ctx.construct(fn), step, bad is None and n > 0, bad or '', ctx.where(fn, fn.node.lineno), None, n)
